@@ -25,14 +25,18 @@ def norm(cfg):
     out['pools'] = dict(cfg.get('pools') or {})
     sc = []
     for c in cfg.get('script') or []:
-        nc = dict(t=0, prio=20, call='noise', dev=0, arg=0, res='')
+        nc = dict(t=0, prio=20, call='noise', dev=0, arg=0, res='', between=False)
         nc.update(c)
         sc.append(nc)
     sc.sort(key=lambda c: (c['t'], -c['prio']))
     out['script'] = sc
     out.setdefault('horizon', 24)
+    out['splits'] = sorted(set(list(cfg.get('splits') or []) + [c['t'] for c in sc if c['between']]))
+    out['splits'] = [t for t in out['splits'] if 0 < t < out['horizon']]
+    for c in sc:
+        if c['between'] and c['t'] not in out['splits']:
+            c['between'] = False
     out['serial'] = is_serial(out)
-    out['splits'] = list(cfg.get('splits') or [])
     return out
 
 
@@ -227,6 +231,82 @@ def gen_resources(rng, count=100):
     return out
 
 
+def gen_targeted(rng, count=60):
+    """Situations that random placement rarely produces: a failure while the machine is shut down for
+    maintenance, two shutdowns within one part, several machines waiting for the same pool when it is
+    released or enlarged, zero-length cycles with one-shot offsets, calls made between two runs."""
+    out = []
+    for i in range(count):
+        kind = i % 6
+        H = rng.choice([24, 32])
+        if kind == 0:        # failure during a maintenance shutdown, part in process or not
+            c = rng.choice([4, 6, 8, 10])
+            t1 = rng.choice([1, 2, 3, 5])
+            devs = [src(rng.choice([1, 2]), rng.choice([3, 5, -1]), pval=1), dev('processor', [1], cyc=c, req=rng.choice([{}, {'A': 1}])),
+                    dev('sink', [2], cyc=0)]
+            script = [dict(t=t1, call='shutdown', dev=2), dict(t=t1 + rng.choice([0, 1, 2]), call='fail', dev=2, arg=rng.choice([0, 0, 1])),
+                      dict(t=t1 + rng.choice([3, 4, 6]), call='restore', dev=2, prio=rng.choice([20, 90]))]
+            cfg = dict(devs=devs, script=script, horizon=H, pools={'A': 1})
+            fam = 'fail-in-maintenance'
+        elif kind == 1:      # two shutdown / restore pairs within one part
+            c = rng.choice([8, 10, 12])
+            a = rng.choice([1, 2, 3])
+            devs = [src(rng.choice([1, 2]), rng.choice([2, 3, -1]), pval=1), dev('processor', [1], cyc=c), dev('sink', [2], cyc=0)]
+            t1 = rng.choice([2, 3, 4])
+            script = [dict(t=t1, call='shutdown', dev=2), dict(t=t1 + a, call='restore', dev=2),
+                      dict(t=t1 + a + 2, call='shutdown', dev=2), dict(t=t1 + a + 2 + rng.choice([1, 2, 3]), call='restore', dev=2)]
+            cfg = dict(devs=devs, script=script, horizon=H)
+            fam = 'double-shutdown'
+        elif kind == 2:      # k lines competing for one pool that is released / enlarged
+            k = rng.choice([2, 3, 3])
+            devs = [src(rng.choice([1, 2]), rng.choice([1, 2, 3]), pval=1) for _ in range(k)]
+            for j in range(k):
+                devs.append(dev('processor', [j + 1], cyc=rng.choice([2, 3, 4]), req={'A': 1}))
+            for j in range(k):
+                devs.append(dev('sink', [k + j + 1], cyc=0))
+            cap = rng.choice([0, 1, 1])
+            script = []
+            if cap == 0 or rng.random() < 0.5:
+                script.append(dict(t=rng.choice([1, 2, 4]), call='addres', res='A', arg=rng.choice([1, 2, 2, 3])))
+            if rng.random() < 0.3:
+                script.append(dict(t=rng.choice([6, 9]), call='addres', res='A', arg=-1))
+            cfg = dict(devs=devs, script=script, horizon=H, pools={'A': cap})
+            fam = 'contention'
+        elif kind == 3:      # zero-length cycles and one-shot offsets from receive and finish callbacks
+            devs = [src(rng.choice([1, 2, 3]), rng.choice([5, 8, -1]), pval=1),
+                    dev('processor', [1], cyc=rng.choice([0, 1, 4]), offmod=rng.choice([0, -3, -10, 2]), foff=rng.choice([0, 1, 3]),
+                        cycmod=rng.choice([0, 0, 2, 3])),
+                    dev('sink', [2], cyc=rng.choice([0, 1]))]
+            cfg = dict(devs=devs, horizon=H)
+            fam = 'offsets'
+        elif kind == 4:      # calls made between two runs (split horizon)
+            devs = [src(rng.choice([1, 2]), rng.choice([3, 6, -1]), pval=1), dev('processor', [1], cyc=rng.choice([2, 3]), req={'A': 1}),
+                    dev('buffer', [2], cap=2, delay=rng.choice([0, 1])), dev('sink', [3], cyc=rng.choice([0, 2]))]
+            t = rng.choice([4, 6, 9])
+            script = [dict(t=t, call=rng.choice(['addres', 'addres', 'block', 'shutdown', 'adjust']), dev=rng.choice([2, 2, 3]), res='A',
+                           arg=rng.choice([1, 2, -1]), between=True),
+                      dict(t=t + 4, call=rng.choice(['addres', 'unblock', 'restore']), dev=rng.choice([2, 3]), res='A', arg=1, between=True)]
+            for c in script:
+                if c['call'] == 'adjust':
+                    c['dev'] = 1
+                if c['call'] in ('shutdown', 'restore'):
+                    c['dev'] = 2
+            cfg = dict(devs=devs, script=script, horizon=H, pools={'A': rng.choice([1, 2])})
+            fam = 'between-runs'
+        else:                # a blocked machine that goes down with a finished part while downstream frees up
+            devs = [src(1, rng.choice([3, 5, -1]), pval=1), dev('processor', [1], cyc=rng.choice([1, 2])),
+                    dev('processor', [2], cyc=rng.choice([6, 8, 10])), dev('sink', [3], cyc=0)]
+            t1 = rng.choice([3, 4, 5])
+            script = [dict(t=t1, call=rng.choice(['shutdown', 'fail']), dev=2, arg=0),
+                      dict(t=t1 + rng.choice([6, 8, 10, 12]), call='restore', dev=2)]
+            cfg = dict(devs=devs, script=script, horizon=H + 8)
+            fam = 'down-while-blocked'
+        cfg = norm(cfg)
+        cfg['family'] = fam
+        out.append(cfg)
+    return out
+
+
 def quick_family(seed, scale=1):
     """The configurations of the quick tier (a few hundred)."""
     rng = random.Random(seed * 7919 + 13)
@@ -241,6 +321,14 @@ def quick_family(seed, scale=1):
     res = gen_resources(rng, 60 * scale)
     out += res
     out += [add_faults(rng, c, rng.choice([1, 2, 4])) for c in gen_resources(rng, 60 * scale)]
+    out += gen_targeted(rng, 90 * scale)
+    # split runs: a third of the configurations is also run in two or three consecutive runs
+    for c in list(out):
+        if rng.random() < 0.2 and not c['splits']:
+            c2 = dict(c)
+            c2['splits'] = sorted(set(rng.sample(range(1, c['horizon']), rng.choice([1, 2]))))
+            c2['family'] = c.get('family', '') + '/split'
+            out.append(c2)
     for i, c in enumerate(out):
         c['cid'] = i + 1
     return out
